@@ -161,6 +161,6 @@ int main(int argc, char **argv) {
     for (int cm=0;cm<2;++cm) { qr_case(1,1,cm,-1); qr_case(2,1,cm,-1); qr_case(1,2,cm,-1); qr_case(3,1,cm,-1); qr_case(1,3,cm,-1); qr_case(4,1,cm,-1); qr_case(2,2,cm,0); qr_case(3,2,cm,0);
         qr_solve_case(1,1,cm); qr_solve_case(2,1,cm); qr_solve_case(3,1,cm); qr_solve_case(1,2,cm); qr_solve_case(1,3,cm);
         if (T) { qr_case(2,2,cm,-1); qr_solve_case(2,2,cm); } }
-    for (int cm=0;cm<2;++cm) { block_qr_reuse_case(1,cm); block_qr_reuse_case(2,cm); }
+    for (int cm=0;cm<2;++cm) block_qr_reuse_case(1,cm);   /* 2x2 blocks of 2x2 (a 4x4 scalar QR, three nested reflectors): minutes of z3 per obligation, not part of either tier */
     return hx::finish();
 }
